@@ -1,7 +1,8 @@
 """Contracts for acnportal/acnsim/models/battery.py  (C02 ledger, C03 bounds, C14 laws)."""
 from pyvc.contracts_api import REG, C, RaiseSpec
 from pyvc.dsl import And, Or, Not, Implies, If, Min, Max, Exp, Eq, With
-from pyvc.vtypes import Real, Int, Bool, Id, Ref, Opt
+from pyvc.vtypes import Real, Int, Bool, Id, Ref, Opt, Tup
+import z3
 
 M = "acnportal.acnsim.models.battery."
 
@@ -227,3 +228,61 @@ def _F_mono_pilot():
 
 
 REG.lemma("C14.F_monotone_in_pilot", _F_mono_pilot, props=("C14",))
+
+
+# ---------------------------------------------------------------------------- C15: two-stage capacity fit
+BC = M + "batt_cap_fn"
+REG.contract(
+    BC + ".<locals>._get_init_cap.<locals>.binsearch", params=dict(lb=Real, ub=Real, target=Real, tol=Real), ret=Real, modifies=[],
+    assumed="bisection on a decreasing function (higher-order argument, recursion): only its frame is used; the search branch of the fit is "
+            "covered by the bounded monitor, not proved",
+    ensures=[])
+
+
+def _closed(E, n, V, p, cap):
+    tr = z3.RealVal("4/5")
+    md = 32 * V / 1000 / cap / (60 / p)                   # SoC per period at 32 A
+    X = Exp(md * n / (tr - 1))
+    return tr, X, (1 + (E / cap) / (X - 1)) >= tr
+
+
+def _init_cap_post(old, new, ret):
+    """_get_init_cap(battery_cap): on the closed-form branch (start at or beyond the transition SoC) the whole stay is in the taper
+    region, F(s0, n periods) - s0 = E / cap, and the result is the initial charge in kWh"""
+    E, n, V, p, cap = old.requested_energy, old.stay_dur, old.voltage, old.period, old.battery_cap
+    tr, X, closed = _closed(E, n, V, p, cap)
+    s0 = ret / cap
+    return [
+        ("closed_form.full_rate_for_the_stay_delivers_exactly_the_request", Implies(closed, Eq((1 - (1 - s0) * X) - s0, E / cap))),
+        ("closed_form.initial_charge_in_kWh_within_free_capacity", Implies(closed, And(ret >= tr * cap, ret <= cap - E))),
+    ]
+
+
+REG.contract(
+    BC + ".<locals>._get_init_cap", params=dict(battery_cap=Real), ret=Real, modifies=[],
+    requires=[C("args", lambda s: And(s.requested_energy > 0, s.stay_dur > 0, s.voltage > 0, s.period > 0, s.battery_cap >= s.requested_energy))],
+    ensures=[C("C15.fit", _init_cap_post)],
+    extra=dict(closure=dict(requested_energy=Real, stay_dur=Real, voltage=Real, period=Real)),
+)
+
+
+def _fit_post(old, new, ret):
+    cap, init = ret
+    E, n, V, p = old.requested_energy, old.stay_dur, old.voltage, old.period
+    tr, X, closed = _closed(E, n, V, p, cap)
+    s0 = init / cap
+    return [
+        ("capacity_covers_request", cap >= E),
+        ("capacity_is_a_listed_size", Or(*[cap == c for c in (8, 24, 40, 60, 85, 100)])),
+        ("closed_form.full_rate_for_the_stay_delivers_exactly_the_request", Implies(closed, Eq((1 - (1 - s0) * X) - s0, E / cap))),
+        ("closed_form.initial_charge_in_kWh_within_free_capacity", Implies(closed, And(init >= tr * cap, init <= cap - E))),
+        ("initial_charge_nonnegative", init >= 0),
+    ]
+
+
+REG.contract(
+    BC, params=dict(requested_energy=Real, stay_dur=Real, voltage=Real, period=Real), ret=Tup(Real, Real), modifies=[],
+    requires=[C("args", lambda s: And(s.requested_energy > 0, s.stay_dur > 0, s.voltage > 0, s.period > 0))],
+    raises=[RaiseSpec("ValueError", lambda s: True, iff=False, unchanged=True)],
+    ensures=[C("C15.fit", _fit_post)],
+)
